@@ -32,10 +32,14 @@ type renStep struct {
 	Rep    int      `json:",omitempty"` // Reader: the payload is Text repeated Rep times (0 = once)
 	RMode  int      `json:",omitempty"` // Reader: 0 bytes.Reader, 1 final bytes together with io.EOF, 2 one byte per Read, 3 half of the buffer per Read
 	KnownN bool     `json:",omitempty"` // Reader: content length passed (else -1)
-	Head   bool     `json:",omitempty"` // the request is a HEAD request (same route, same handler)
-	After  string   `json:",omitempty"` // hex: afterwards the handler (a relabelling middleware) calls c.Header("Content-Type", After)
-	FailAt int      `json:",omitempty"` // 0: healthy recorder; k: the writer's k-th Write fails
-	Mode   int      `json:",omitempty"` // 0 broken from then on, (0, err); 1 broken from then on, short write; 2 only that one Write fails
+	// Nest: the NEXT step of the history is served (completely, on its own healthy request) while this
+	// step's response writer is inside its first Write - the deterministic form of "the connection is
+	// slow and another request runs meanwhile"
+	Nest   bool   `json:",omitempty"`
+	Head   bool   `json:",omitempty"` // the request is a HEAD request (same route, same handler)
+	After  string `json:",omitempty"` // hex: afterwards the handler (a relabelling middleware) calls c.Header("Content-Type", After)
+	FailAt int    `json:",omitempty"` // 0: healthy recorder; k: the writer's k-th Write fails
+	Mode   int    `json:",omitempty"` // 0 broken from then on, (0, err); 1 broken from then on, short write; 2 only that one Write fails
 }
 
 type renCase struct{ Steps []renStep }
@@ -110,6 +114,7 @@ func genRenStep(r *hx.Rand) renStep {
 		s.J = genJsn(r)
 	}
 	s.Head = r.Chance(1, 10)
+	s.Nest = r.Chance(1, 5)
 	if r.Chance(1, 8) { // status codes that carry no body on the wire: the helper's own output is still the documented one
 		code := hx.Pick(r, []int{204, 304, 205, 100 + 99})
 		switch {
@@ -167,11 +172,28 @@ type renObs struct {
 	same     bool
 }
 
-func runRenStep(s renStep) (o renObs) {
+// nestingWriter runs hook once, from inside its first Write, before it records the bytes.
+type nestingWriter struct {
+	http.ResponseWriter
+	hook func()
+}
+
+func (w *nestingWriter) Write(p []byte) (int, error) {
+	if h := w.hook; h != nil {
+		w.hook = nil
+		h()
+	}
+	return w.ResponseWriter.Write(p)
+}
+
+func runRenStep(s renStep, inWrite func()) (o renObs) {
 	rec := httptest.NewRecorder()
 	var w http.ResponseWriter = rec
 	if s.FailAt > 0 {
 		w = &flakyWriter{rec: rec, failAt: s.FailAt, mode: s.Mode}
+	}
+	if inWrite != nil {
+		w = &nestingWriter{ResponseWriter: w, hook: inWrite}
 	}
 	method := http.MethodGet
 	if s.Head {
@@ -270,8 +292,20 @@ func emitRen(id string, k *renCase, st *hx.Stats) string {
 	in := l.String()
 	l.Sep().Nat(len(k.Steps))
 	lostThenOK, sawLost := false, false
-	for _, s := range k.Steps {
-		o := runRenStep(s)
+	obsAll := make([]renObs, len(k.Steps))
+	for i := 0; i < len(k.Steps); i++ {
+		if k.Steps[i].Nest && i+1 < len(k.Steps) {
+			j, done := i+1, false
+			obsAll[i] = runRenStep(k.Steps[i], func() { obsAll[j], done = runRenStep(k.Steps[j], nil), true })
+			if !done { // the outer helper never wrote: the next request simply comes afterwards
+				obsAll[j] = runRenStep(k.Steps[j], nil)
+			}
+			i++
+			continue
+		}
+		obsAll[i] = runRenStep(k.Steps[i], nil)
+	}
+	for _, o := range obsAll {
 		switch {
 		case o.panicked:
 			l.Tok("P")
@@ -305,6 +339,9 @@ func emitRen(id string, k *renCase, st *hx.Stats) string {
 			}
 			if s.Head {
 				st.Count("R_head_request")
+			}
+			if s.Nest {
+				st.Count("R_next_request_served_inside_this_write")
 			}
 			if s.FailAt > 0 {
 				st.Count("R_flaky_writer_mode_" + strconv.Itoa(s.Mode) + "_at_" + strconv.Itoa(s.FailAt))
